@@ -137,7 +137,7 @@ fn gen(seed: u64, family: &str, tier: Tier) -> Case {
             json!({"type": "combined", "models": ms})
         }
     };
-    let pc = PluginChoice { override_heavy: false, grid: false, lb: None, inject: false, rtree: false };
+    let pc = PluginChoice { override_heavy: false, grid: false, lb: None, inject: false, rtree: false, edge_rtree: false };
     let nq = r.range(1, 10) as usize;
     let mut batch = vec![];
     let edge_family = family == "edge";
